@@ -306,7 +306,11 @@ func truncCase(c *core.Ctx, r *core.Rand, i int) {
 	// truncation at EVERY offset inside the second message
 	for off := 0; off < len(b2); off++ {
 		stream := append(append([]byte{}, b1...), b2[:off]...)
-		ch := &chunker{data: stream, sizes: sizes}
+		// half of the truncated streams hand out their last bytes together with io.EOF (io.Reader allows it)
+		ch := &chunker{data: stream, sizes: sizes, eofWith: (off+i)%2 == 1}
+		if ch.eofWith {
+			c.Count("truncations.last-bytes-with-eof", 1)
+		}
 		st := ttlv.NewStream(ch, 1<<20)
 		var v ttlv.Value
 		if err := st.Recv(&v); err != nil {
@@ -700,7 +704,7 @@ func Spec() *core.Spec {
 			"truncation at EVERY byte offset of messages up to 2 KB behind a complete message; announced lengths {max-16 .. max+8, 2*max, 2^31, 2^32-8, 2^32-1} for max in {64 KiB, 1 MiB} with consumed-byte, requested-size and TotalAlloc monitors; " +
 			"the last chunk delivered together with io.EOF; byte-wise delivery against a real server connection and a real client connection. every fifth item a bare padded scalar; all messages of a sequence re-read after the last Recv; small configured maxima (16..1024) with complete messages around them; one item in twelve a correctly delimited frame with an invalid type byte (Recv fails, consumes exactly the frame, later messages intact); distinct = distinct (segmentation, boundaries) / (size, offset class) combinations",
 		Assumptions: []string{"messages are compared as trees read back by the harness from the generic value", "alloc monitor: runtime.MemStats.TotalAlloc delta around a single-goroutine call, threshold 256 KiB"},
-		Required:    []string{"sequences", "recvs", "scalar_messages", "undecodable_frames_in_sequences", "odd_length_structures_in_sequences", "held_sends", "failed_sends", "sends_after_failed_sends", "small_limit_cases.over", "held_messages_rechecked", "truncations", "limit_cases.over", "limit_cases.within", "eof_with_data_cases", "e2e_server_messages", "e2e_client_messages", "segmentation.1-byte", "segmentation.one-read"},
+		Required:    []string{"sequences", "recvs", "scalar_messages", "undecodable_frames_in_sequences", "odd_length_structures_in_sequences", "held_sends", "truncations.last-bytes-with-eof", "failed_sends", "sends_after_failed_sends", "small_limit_cases.over", "held_messages_rechecked", "truncations", "limit_cases.over", "limit_cases.within", "eof_with_data_cases", "e2e_server_messages", "e2e_client_messages", "segmentation.1-byte", "segmentation.one-read"},
 		Families: []core.Family{
 			{Name: "sequences", N: nOf(20000, 800000), Run: seqCase},
 			{Name: "truncation", Exhaustive: true, N: nOf(8*6, 8*200), Run: truncCase},
